@@ -126,7 +126,8 @@ def load_known(prop):
 def finish(rep, level="other"):
     """Print verdict lines, write evidence, return exit code."""
     known, fixed = load_known(rep.prop)
-    evdir = os.path.join(VERIF, "evidence")
+    # experiments on scratch copies (sweeps of seeded changes / refactorings) must not overwrite the evidence of /repo
+    evdir = os.environ.get("FV_EVIDENCE_DIR") or os.path.join(VERIF, "evidence")
     vdir = os.path.join(evdir, "violations")
     os.makedirs(vdir, exist_ok=True)
     for f in os.listdir(vdir):
